@@ -45,6 +45,7 @@ type renderModel struct {
 	errs                 []string
 	lcdc                 map[int]string // LCDC bit -> PPU flag path
 	shades               map[*ai.Object]string
+	overlap              string // path of the per-line table the line test fills (found by role)
 }
 
 func (c *Ctx) renderModel() *renderModel {
@@ -59,6 +60,20 @@ func (c *Ctx) renderModel() *renderModel {
 	if m.PPU == nil || m.OAM == nil || m.Pixel == nil || m.Tile == nil || m.BG == nil || m.Win == nil || m.Scan == nil {
 		m.errs = append(m.errs, "PPU/OAM objects or the routines renderPixel, readTilePixel, findBackgroundPixel, findWindowPixel, checkOverlappingSprite (the property's anchors) not found")
 		return m
+	}
+	// the per-line table: the boolean array of the PPU the line test stores into
+	{
+		w, sg := ai.TypeShape(m.Scan.Params[1].Type())
+		ev := c.evalCall(nil, m.Scan, []ai.Value{ptrTo(m.PPU), ai.NewConstInt(w, sg, 3)}, nil, nil)
+		for _, p := range c.storedCellsOf(ev, m.PPU) {
+			if i := strings.Index(p, "["); i > 0 {
+				m.overlap = p[:i]
+			}
+		}
+		if m.overlap == "" {
+			m.errs = append(m.errs, "the per-object line test stores into no array of the PPU")
+			return m
+		}
 	}
 	for _, sc := range callsIn(m.Pixel.Blocks) {
 		if sc.Callee != nil && sc.Callee.Name() == "SetRGBA" {
@@ -112,10 +127,10 @@ func (m *renderModel) scene(st *ai.State, lcdc map[int]bool, objs []sceneObj) {
 	}
 	st.SetCell(m.OAM, ".dmaRunning", ai.NewConstBool(false))
 	for k := 0; k < 40; k++ {
-		st.SetCell(m.PPU, fmt.Sprintf(".spriteOverlaps[%d]", k), ai.NewConstBool(false))
+		st.SetCell(m.PPU, fmt.Sprintf("%s[%d]", m.overlap, k), ai.NewConstBool(false))
 	}
 	for _, o := range objs {
-		st.SetCell(m.PPU, fmt.Sprintf(".spriteOverlaps[%d]", o.Slot), ai.NewConstBool(o.OverlapsLine))
+		st.SetCell(m.PPU, fmt.Sprintf("%s[%d]", m.overlap, o.Slot), ai.NewConstBool(o.OverlapsLine))
 		base := o.Slot * 4
 		st.SetCell(m.OAM, fmt.Sprintf(".oam[%d]", base), ai.NewConstInt(8, false, o.Y))
 		st.SetCell(m.OAM, fmt.Sprintf(".oam[%d]", base+1), ai.NewConstInt(8, false, o.X))
@@ -340,7 +355,7 @@ func checkC15(c *Ctx) *report.Result {
 				}
 				_, post := it.CallFunction(st, m.Scan, []ai.Value{ptrTo(m.PPU), ai.NewConstInt(8, false, 3)}, nil)
 				n++
-				got, isc := boolConst(c.cellBool(post, m.PPU, ".spriteOverlaps[3]"))
+				got, isc := boolConst(c.cellBool(post, m.PPU, m.overlap+"[3]"))
 				want := ly+16 >= y && ly+16 < y+8
 				if !isc || got != want {
 					nbad++
@@ -712,11 +727,15 @@ func checkC15(c *Ctx) *report.Result {
 				st.SetCell(pm.PPU, pm.Enabled, ai.NewConstBool(true))
 				var ks, oamIdx []int64
 				it.Hooks = ai.Hooks{
-					Store: func(_ *ai.State, _ ssa.Instruction, p *ai.Ptr, keys []ai.CellKey, _ ai.Value, _ bool) {
+					Store: func(_ *ai.State, _ ssa.Instruction, p *ai.Ptr, keys []ai.CellKey, v ai.Value, _ bool) {
+						// the per-line table: a boolean array element of the PPU (found by shape, not by name)
+						if _, isBool := v.(*ai.Bool); !isBool {
+							return
+						}
 						for _, k := range keys {
-							if k.Obj == pm.PPU.ID && strings.HasPrefix(k.Path, ".spriteOverlaps[") {
+							if i := strings.LastIndex(k.Path, "["); k.Obj == pm.PPU.ID && i >= 0 {
 								var idx int64 = -1
-								fmt.Sscanf(strings.TrimPrefix(k.Path, ".spriteOverlaps["), "%d", &idx)
+								fmt.Sscanf(k.Path[i+1:], "%d", &idx)
 								if strings.Contains(k.Path, "*") {
 									idx = -1
 								}
